@@ -253,12 +253,12 @@ def where_of(tree, detail_text):
     if b:
         best, mx, feas = (int(x) for x in b.groups())
         direction = "infeasible" if feas == 0 else ("higher" if mx > best else "lower")
-        return f"{direction}:{lt_shapes(tree)}"
+        return f"{direction}:{c20_gen.features(tree)}"
     m = _NODE_RE.search(detail_text or "")
     if m:
         i = int(m.group(1))
         if 1 <= i <= len(tree["nodes"]):
-            w = shape(tree, tree["nodes"][i - 1]["id"], depth=2)
+            w = shape(tree, tree["nodes"][i - 1]["id"], depth=1)
             b = _BAD_RE.search(detail_text)
             if b:
                 w += "/" + "+".join(sorted(x.strip().strip('"') for x in b.group(1).split(",") if x.strip()))
@@ -436,7 +436,7 @@ def _chunk_in(ci, trees, tier, cfg, binary, res, scratch):
                 f"{c20_gen.sexpr(tree)} (partitions={[p['quantity'] for p in tree['partitions']]}, now={tree['now']}) compiles at discretisation 1 without passes, "
                 f"but with g={i['g']} passes={_mask_passes(i['mask'])} the library ends in {i['error']['kind']}: {i['error']['what'][:140]}",
                 _detail(tree, i, None, None, "exception " + json.dumps(i["error"])),
-                key=f"compile-{first['error']['kind']}:{lt_shapes(tree)}",
+                key=f"compile-{first['error']['kind']}:{c20_gen.features(tree)}",
             )
         for i in mine:
             if "error" in i:
